@@ -71,6 +71,19 @@ Theorem C12_auth_history_independent :
 Proof. exact auth_history_independent. Qed.
 Print Assumptions C12_auth_history_independent.
 
+(* no access verdict depends on the requests / connections served before it on the same target *)
+Theorem C12_access_history_independent :
+  forall parse_ip split_host r pre remote xff post d,
+  nth (List.length pre) (http_access_history parse_ip split_host r (pre ++ (remote, xff) :: post)) d
+  = access_denied_http parse_ip split_host r remote xff.
+Proof. exact http_access_history_independent. Qed.
+Print Assumptions C12_access_history_independent.
+
+Theorem C12_access_history_independent_tcp : forall r pre p post d,
+  nth (List.length pre) (tcp_access_history r (pre ++ p :: post)) d = access_denied_tcp r p.
+Proof. exact tcp_access_history_independent. Qed.
+Print Assumptions C12_access_history_independent_tcp.
+
 (* ---- the gates come before any upstream action ---- *)
 Theorem C12_gate_before_upstream_http :
   forall parse_ip split_host (creds : Type) t (schemes : scheme_table creds) remote xff c,
@@ -81,6 +94,37 @@ Theorem C12_gate_before_upstream_http :
     /\ exists host, split_host remote = Some host.
 Proof. exact gate_before_upstream_http. Qed.
 Print Assumptions C12_gate_before_upstream_http.
+
+(* a redirect answer (3xx + Location) is given only behind the same two gates *)
+Theorem C12_gate_before_redirect_http :
+  forall parse_ip split_host (creds : Type) t (schemes : scheme_table creds) remote xff c code,
+  In (ERedirect code) (serve_http parse_ip split_host creds t schemes remote xff c) ->
+  exists tg, t = Some tg /\ t_redirect tg = code /\ code <> 0
+    /\ access_denied_http parse_ip split_host (t_rules tg) remote xff = false
+    /\ authorized (t_auth tg) schemes c = true.
+Proof. exact gate_before_redirect_http. Qed.
+Print Assumptions C12_gate_before_redirect_http.
+
+(* the gate's answer for a request (403 / 401 / passed) does not depend on whether the route
+   forwards or redirects, nor on the code: ServeHTTP sees the copy Table.Lookup returns *)
+Theorem C12_gate_independent_of_redirect :
+  forall parse_ip split_host (creds : Type) tg (schemes : scheme_table creds) remote xff c code code',
+  gate_answer (serve_http parse_ip split_host creds (Some (with_redirect tg code)) schemes remote xff c)
+  = gate_answer (serve_http parse_ip split_host creds (Some (with_redirect tg code')) schemes remote xff c).
+Proof. exact gate_independent_of_redirect. Qed.
+Print Assumptions C12_gate_independent_of_redirect.
+
+Theorem C12_nonvacuous_redirect_gate :
+  serve_http ex_parse_ip ex_split_host unit (Some {| t_rules := ex_deny_6666; t_auth := []; t_redirect := 301 |})
+             (fun _ => None) (bs "1.1.1.1:1") [bs "8.8.8.8, 1.1.1.1"] tt = [ERedirect 301] /\
+  serve_http ex_parse_ip ex_split_host unit (Some {| t_rules := ex_deny_6666; t_auth := []; t_redirect := 301 |})
+             (fun _ => None) (bs "1.1.1.1:1") [bs "8.8.8.8, 6.6.6.6"] tt = [ERespond 403] /\
+  serve_http ex_parse_ip ex_split_host unit (Some {| t_rules := deny_all_rules; t_auth := []; t_redirect := 308 |})
+             (fun _ => None) (bs "1.1.1.1:1") [] tt = [ERespond 403] /\
+  serve_http ex_parse_ip ex_split_host unit (Some {| t_rules := ex_deny_6666; t_auth := bs "nosuch"; t_redirect := 302 |})
+             (fun _ => None) (bs "1.1.1.1:1") [] tt = [ERespond 401].
+Proof. exact redirect_gate_nonvacuous. Qed.
+Print Assumptions C12_nonvacuous_redirect_gate.
 
 Theorem C12_denied_gets_403 :
   forall parse_ip split_host (creds : Type) tg (schemes : scheme_table creds) remote xff c,
@@ -311,13 +355,13 @@ Proof. exact well_formed_nonvacuous. Qed.
 Print Assumptions C12_nonvacuous_well_formed.
 
 Theorem C12_nonvacuous_gate :
-  serve_http ex_parse_ip ex_split_host unit (Some {| t_rules := ex_deny_6666; t_auth := [] |})
+  serve_http ex_parse_ip ex_split_host unit (Some {| t_rules := ex_deny_6666; t_auth := []; t_redirect := 0 |})
              (fun _ => None) (bs "1.1.1.1:1") [bs "8.8.8.8, 1.1.1.1"] tt = [EUpstream] /\
-  serve_http ex_parse_ip ex_split_host unit (Some {| t_rules := ex_deny_6666; t_auth := [] |})
+  serve_http ex_parse_ip ex_split_host unit (Some {| t_rules := ex_deny_6666; t_auth := []; t_redirect := 0 |})
              (fun _ => None) (bs "1.1.1.1:1") [bs "8.8.8.8, 6.6.6.6"] tt = [ERespond 403] /\
-  serve_http ex_parse_ip ex_split_host unit (Some {| t_rules := ex_deny_6666; t_auth := bs "nosuch" |})
+  serve_http ex_parse_ip ex_split_host unit (Some {| t_rules := ex_deny_6666; t_auth := bs "nosuch"; t_redirect := 0 |})
              (fun _ => None) (bs "1.1.1.1:1") [] tt = [ERespond 401] /\
-  serve_tcp (Some {| t_rules := ex_allow_10; t_auth := [] |}) (TCPAddr (Some ip_8888)) = [EClose] /\
-  serve_tcp (Some {| t_rules := ex_allow_10; t_auth := [] |}) (TCPAddr (Some (IP4 168430090))) = [EUpstream].
+  serve_tcp (Some {| t_rules := ex_allow_10; t_auth := []; t_redirect := 0 |}) (TCPAddr (Some ip_8888)) = [EClose] /\
+  serve_tcp (Some {| t_rules := ex_allow_10; t_auth := []; t_redirect := 0 |}) (TCPAddr (Some (IP4 168430090))) = [EUpstream].
 Proof. exact gate_nonvacuous. Qed.
 Print Assumptions C12_nonvacuous_gate.
